@@ -11,7 +11,7 @@ I = z3.Int
 BOUNDS = {"quick": dict(K=4), "thorough": dict(K=6)}
 
 
-def harness(L, sw, ch, sr, K, mode):
+def harness(L, sw, ch, sr, K, mode, with_mr=False):
     bps = sw * ch
     core = L.modules["core"]
     iom = L.modules["io"]
@@ -34,12 +34,19 @@ def harness(L, sw, ch, sr, K, mode):
 
     def path(e):
         D, data, n, B, P, calls, validator = c05.split_setup(e, core, bps, sr, K)
-        meta = dict(sw=sw, ch=ch, sr=sr, K=K, mode=mode, via="source", kind="split")
+        meta = dict(sw=sw, ch=ch, sr=sr, K=K, mode=mode, via="source", kind="split", with_mr=with_mr)
         src = Counting(data, sr, sw, ch)
         conds = {}
+        extra = {}
+        vis = n
+        Mq = None
+        if with_mr:
+            mr, M, Mq = byt.sym_max_read(e, sr)
+            extra["max_read"] = mr
+            vis = z3.If(M < n, M, n)
         try:
             gen = core.split(src, min_dur=1, max_dur=1, max_silence=1, drop_trailing_silence=bool(mode & 4), strict_min_dur=bool(mode & 2),
-                             analysis_window=c05.split_setup.aw, validator=validator)
+                             analysis_window=c05.split_setup.aw, validator=validator, **extra)
             conds[("nothing read before the first next()", 0)] = src.calls == 0
             i = 0
             while True:
@@ -69,13 +76,20 @@ def harness(L, sw, ch, sr, K, mode):
                 if en is None:
                     conds[("end within the input", i)] = False
                     break
-                flushed = src.nones >= 1
-                conds[("lazy", i)] = z3.Or(z3.BoolVal(flushed), src.handed <= (en + P["ms"] + 2) * B)
+                flushed = z3.Or(z3.BoolVal(src.nones >= 1), src.handed >= vis)
+                conds[("lazy", i)] = z3.Or(flushed, src.handed <= (en + P["ms"] + 2) * B)
+                conds[("never beyond the visible data", i)] = src.handed <= vis
                 i += 1
-            conds[("end of stream requested once", 0)] = src.nones == 1
+            conds[("never beyond the visible data", "end")] = src.handed <= vis
+            conds[("end of stream requested once", 0)] = (src.nones == 1) if not with_mr else (src.nones <= 1)
         except Exception as ex:
             return c05.now(e, "split raised %s: %s" % (type(ex).__name__, str(ex)[:80]), D, B, P, calls, meta)
-        return tok.discharge(e, conds, lambda m: c05.mk(m, D, B, P, calls, meta))
+        def mkc(m):
+            c = c05.mk(m, D, B, P, calls, meta)
+            if Mq is not None:
+                c["Mq"] = byt.iv(m, Mq)
+            return c
+        return tok.discharge(e, conds, mkc)
     return path
 
 
@@ -114,18 +128,31 @@ def replay_fn(c):
         return c["valid"][k] if k < len(c["valid"]) else False
     desc = "split(AudioSource of %d samples, window=%d samples, counts=(%d,%d,%d), mode=%d, decisions=%s)" % (
         n, B, c["min_length"], c["max_length"], c["mcs"], c["mode"], tok.stream_str(c["valid"]))
+    extra = {}
+    vis = n
+    if c.get("with_mr"):
+        mrc = byt.max_read_concrete(c["Mq"], sr)
+        if mrc is None:
+            return []
+        extra["max_read"] = mrc[0]
+        vis = min(n, mrc[1])
+        desc += ", max_read=%r (%d samples)" % mrc
     try:
         gen = ak.split(src, min_dur=1, max_dur=1, max_silence=1, drop_trailing_silence=bool(c["mode"] & 4), strict_min_dur=bool(c["mode"] & 2),
-                       analysis_window=c.get("Bq", 4 * B) / (4 * sr), validator=validator)
+                       analysis_window=c.get("Bq", 4 * B) / (4 * sr), validator=validator, **extra)
         if src.calls:
             return [("C08: split() reads its input before the first next()", desc + ": %d reads" % src.calls)]
         for r in gen:
             s = round(r.start * sr / B)
             en = -(-(s * B + len(r.data) // bps) // B) - 1
-            if not (src.nones >= 1 or src.handed <= (en + c["mcs"] + 2) * B):
+            if src.handed > vis:
+                return [("C08: split() pulls samples beyond max_read from its input", desc + ": %d samples pulled, %d visible" % (src.handed, vis))]
+            if not (src.nones >= 1 or src.handed >= vis or src.handed <= (en + c["mcs"] + 2) * B):
                 return [("C08: split() pulls more input than needed before yielding a region",
                          desc + ": region windows %d..%d yielded after %d samples were read" % (s, en, src.handed))]
-        if src.nones != 1:
+        if src.handed > vis:
+            return [("C08: split() pulls samples beyond max_read from its input", desc + ": %d samples pulled, %d visible" % (src.handed, vis))]
+        if src.nones > 1 or (src.nones != 1 and not c.get("with_mr")):
             return [("C08: split() requests end of stream %d times" % src.nones, desc)]
     except Exception as ex:
         return [("C08: split raises %s" % type(ex).__name__, desc + ": %s" % ex)]
@@ -147,5 +174,10 @@ def run(rep):
     for mode in tok.MODES:
         hn = "split-online[K=%d,mode=%d]" % (K, mode)
         ex = explore(harness(L, 2, 1, 10, K, mode))
+        rep.add_exploration(hn, ex)
+        tok.handle_cex(rep, hn, ex, replay_fn, ideal=True)
+    for mode in ((0,) if rep.tier == "quick" else (0, 6)):
+        hn = "split-online[K=%d,mode=%d,max_read]" % (K - 1, mode)
+        ex = explore(harness(L, 2, 1, 10, K - 1, mode, with_mr=True))
         rep.add_exploration(hn, ex)
         tok.handle_cex(rep, hn, ex, replay_fn, ideal=True)
